@@ -1,5 +1,6 @@
 /- Driver.Topo — parsing of topology dump blocks (harness/dump.h) and the `topo` engine (C01 oracle). -/
 import Hw.Topo.WF
+import Hw.Topo.InsertWF
 import Driver.Util
 namespace Driver.TopoEng
 open Hw.Topo Driver
@@ -112,6 +113,11 @@ def step (p : Partial) (line : String) : Partial × String :=
     | some (.error e) => (p', "WF FAIL dump-unparsable:" ++ e)
     | some (.ok d) =>
       let v := wfCheck d
+      -- re-insertion oracle: the loaded tree is a fixed point of the model of hwloc___insert_object_by_cpuset
+      let ri := match d.objs[d.root.toNat]? with
+        | some r => (match Ins.reinsertAgrees (Ins.treeC d d.fuel r) with | some false => ["reinsertion-differs"] | _ => [])
+        | none => []
+      let v := v ++ ri
       (p', if v.isEmpty then "WF ok" else "WF FAIL " ++ ",".intercalate (v.take 6))
 
 end Driver.TopoEng
